@@ -156,8 +156,17 @@ def dump(mod):
         nm = f"c{i}"
         names.append(nm)
         coq.append(f"(* {i}: {c.__name__} *)")
+        coq.append(f"Definition k{i} : nat := {i}.")
+        # named constants for the unit strings: the correspondence shards refer to them
+        # (elaborating a string literal is the most expensive part of a case)
+        unit_const = {}
+        for j, (k, _) in enumerate(units):
+            if type(k) is str and gstr(k).startswith("GStr"):
+                coq.append(f"Definition {nm}_u{j} : string := {cstr(k)}.")
+                unit_const[j] = f"{nm}_u{j}"
         coq.append(f"Definition {nm}_units : list (gstr * gfactor) := "
-                   + clist(f"({gstr(k)}, {gfactor(v)})" for k, v in units) + ".")
+                   + clist(f"({('GStr ' + unit_const[j]) if j in unit_const else gstr(k)}, {gfactor(v)})"
+                           for j, (k, v) in enumerate(units)) + ".")
         coq.append(f"Definition {nm}_display : list (gstr * gstr) := "
                    + clist(f"({gstr(k)}, {gstr(v)})" for k, v in disp) + ".")
         coq.append(f"Definition {nm}_descr : list (gstr * gstr) := "
@@ -260,9 +269,17 @@ def decompose(classes):
                 m = re.fullmatch(r"(.+?)([0-9])", a, re.S)
                 if m and not m.group(1).endswith("^"):
                     cands.append((m.group(1), "digit", int(m.group(2))))
-                per_tok.append([(sep, nm, st, k) for nm, st, k in cands if nm in atoms])
+                opts = [[(sep, nm, st, k)] for nm, st, k in cands if nm in atoms]
+                # juxtaposition without a separator: 'kWh' = kW h, 'kgm' = kg m (two declared units)
+                for nm, st, k in cands:
+                    for cut in range(1, len(nm)):
+                        p, q = nm[:cut], nm[cut:]
+                        if p in atoms and q in atoms:
+                            opts.append([(sep, p, "none", 1), ("", q, st, k)])
+                per_tok.append(opts)
             readings = []
-            for choice in itertools.product(*per_tok):
+            for choice_groups in itertools.product(*per_tok):
+                choice = tuple(a for grp in choice_groups for a in grp)
                 if len(choice) == 1 and choice[0][0] == "" and choice[0][2] == "none":
                     continue            # the unit itself, not a compound
                 for combo in itertools.product(*[atoms[nm] for _, nm, _, _ in choice]):
